@@ -87,7 +87,8 @@ func (l *maximumWaitStopConstraintImpl) EstimateIsViolated(
 		if !isDependentOnTime &&
 			stopPositionsCount == 0 &&
 			to.IsPlanned() &&
-			arrival == to.ArrivalValue() {
+			arrival == to.ArrivalValue() &&
+			previousEnd == to.EndValue() {
 			break
 		}
 
